@@ -198,10 +198,12 @@ func cheat(a *hx.Args, res *hx.Result) {
 			return cr
 		}
 		var ms []*gobig.Int
-		for _, i := range idxs(c.M) {
+		nreal := len(c.M) - 2 // the last two indices are bases beyond the credential's attributes: nothing is signed there
+		for _, i := range idxs(c.M)[:nreal] {
 			ms = append(ms, conc[k].value(i, c.M[strconv.Itoa(i)]))
 		}
 		cr := conc[k].sign(ms)
+		cr.ms = append(cr.ms, gobig.NewInt(0), gobig.NewInt(0))
 		creds[key] = cr
 		return cr
 	}
@@ -471,7 +473,7 @@ func honest(a *hx.Args, res *hx.Result) {
 		cz := conc[k]
 		pk := cz.kp.PK
 		var ms []*big.Int
-		for _, i := range idxs(c.M) {
+		for _, i := range idxs(c.M)[:len(c.M)-2] {
 			v := cz.value(i, c.M[strconv.Itoa(i)])
 			if c.M[strconv.Itoa(i)] == 2 && i == 1 {
 				v = gobig.NewInt(1) // boundary value 1
